@@ -127,3 +127,44 @@ func checkSliceRemoval(c *Ctx, rule, key string, fn *ssa.Function, L string, fou
 	r.Add(core.Obligation{Rule: rule, Key: key, Func: core.FuncName(fn), Pos: c.P.Pos(fn.Pos()), Status: st, Basis: basis,
 		Detail: core.FuncName(fn) + ": " + det + " — an element other than the one found is dropped, or the one found is kept"})
 }
+
+// checkHuntMAC: a StartHunt function starts its loop (and so emits forged frames addressed to addr.MAC) only for a
+// 6-byte MAC, and works on its own copy of it. An empty non-nil MAC passes a nil test; EncodeEther then copies nothing
+// and the forged frame goes to whatever destination the pooled buffer last held. A retained caller slice changes under
+// the loop when the caller reuses it: the loop's key no longer matches the hunt list.
+func checkHuntMAC(c *Ctx, rule string, fn *ssa.Function) {
+	r := c.R
+	var goIns ssa.Instruction
+	core.EachInstr(fn, func(i ssa.Instruction) {
+		if g, ok := i.(*ssa.Go); ok && g.Call.StaticCallee() != nil && g.Call.StaticCallee().Name() == "spoofLoop" {
+			goIns = i
+		}
+	})
+	if goIns == nil {
+		r.Add(core.Obligation{Rule: rule, Key: rule + " " + core.FuncName(fn) + " starts the loop", Func: core.FuncName(fn), Status: core.Undecided, Detail: "no `go spoofLoop` found"})
+		return
+	}
+	st := core.Proved
+	gs := guardsOf(goIns)
+	if !hasGuard(gs, `^\(len\(local\(\w+\)\.MAC\)==6\)$`) {
+		st = core.Violated
+	}
+	r.Add(core.Obligation{Rule: rule, Key: rule + " " + core.FuncName(fn) + " hunts 6-byte MACs only", Func: core.FuncName(fn), Pos: c.P.Pos(core.PosOf(goIns)), Status: st,
+		Basis: "the loop is started under len(addr.MAC) == 6", Detail: "the spoof loop is started without a test that the MAC has 6 bytes (guards: " + guardTexts(gs) + "): an empty or short MAC passes, the Ethernet destination of the forged frames is then left as the pooled buffer held it - possibly the MAC of a host that is not hunted"})
+	copied := false
+	core.EachInstr(fn, func(i ssa.Instruction) {
+		s, ok := i.(*ssa.Store)
+		if !ok || !regexp.MustCompile(`^local\(\w+\)\.MAC$`).MatchString(norm(s.Addr)) {
+			return
+		}
+		if strings.HasPrefix(norm(s.Val), "packet.CopyMAC(") && (i.Block() == goIns.Block() || i.Block().Dominates(goIns.Block())) {
+			copied = true
+		}
+	})
+	st = core.Proved
+	if !copied {
+		st = core.Violated
+	}
+	r.Add(core.Obligation{Rule: rule, Key: rule + " " + core.FuncName(fn) + " keeps its own copy of the MAC", Func: core.FuncName(fn), Pos: c.P.Pos(core.PosOf(goIns)), Status: st,
+		Basis: "addr.MAC = CopyMAC(addr.MAC) dominates the insertion and the loop start", Detail: "the hunt list and the loop keep the caller's MAC slice: when the caller reuses its buffer the loop's key changes, the loop ends with a restore sent to the new bytes (a host that is not hunted) and the original target stays in the list with no loop"})
+}
